@@ -18,17 +18,18 @@ from harness.procenv import ProcEnv, payload, rmtree
 RULE = ("scenario = 1-3 single-stage workflows (1-3 tasks, the flaky one at any position) sharing one queue; the flaky "
         "task follows a script (per execution: F transient error with/without context_update, R running with context, "
         "S success, P permanent error); grid: k = 0..limit+3 consecutive transient failures x with/without update x "
-        "position x FIFO/shuffled delivery, limits 10 (engine default) and 1..5/12 (max_attempts column copied back by "
-        "the harness); random: mixed scripts, processor-level redeliveries (poll + reschedule), queue limit below/above "
-        "the message limit. A case is distinct by its canonical (spec, recorded choice list); non-trivial when it has "
-        ">= 1 retry/poll round trip")
+        "position x FIFO/shuffled delivery; random: mixed scripts, processor-level redeliveries (poll + reschedule), lost "
+        "acknowledgements (handler commits, worker dies before the processor's mark and the ack) and later redelivery of the "
+        "left-behind row, queue limit below/above the message limit. A case is distinct by its canonical (spec, recorded "
+        "choice list); non-trivial when it has >= 1 retry/poll round trip")
 ASSUMPTIONS = [
     "delays and locks are made explicit: the harness rewrites deliver_at/locked_until and calls the real poll_one(), so "
     "backoff durations are not checked",
     "one worker; ConcurrencyError retries inside the handler are not provoked",
-    "the engine never reads the max_attempts column back into the message (always the dataclass default 10); cases with "
-    "another limit set `message.max_attempts` from that column after poll_one (tagged max-shim) - they exercise the limit "
-    "arithmetic only",
+    "the limit is the dataclass default of Message.max_attempts (read off the real class, 10): the engine reads neither the "
+    "payload field nor the max_attempts column back, so no other per-message limit can occur",
+    "a lost acknowledgement is realised by calling the real RunTaskHandler.handle directly (its commits are the engine's) and "
+    "skipping the processor's own mark and the ack, i.e. the worker dies right after the handler's commit",
     "queue.max_attempts >= message.max_attempts for the terminal-status claim (otherwise the retry row strands for the DLQ "
     "sweep; modelled as `stuck`)",
 ]
@@ -45,6 +46,7 @@ SIG_UNBOUNDED = "C14:retry-unbounded"
 SIG_PROGRESS = "C14:progress-lost"
 SIG_POLL = "C14:poll-dropped"
 SIG_NOT_TERMINAL = "C14:limit-not-terminal"
+SIG_REEXEC = "C14:requeued-source-reexecuted"
 
 WORLD: dict[int, dict] = {}
 _NEXT_CHAIN = [0]
@@ -114,15 +116,20 @@ def make_tasks():
 # one scenario on the real engine
 # ------------------------------------------------------------------------------------------------
 
-def limit_of(w: dict) -> int:
-    if w.get("shim"):
-        return w["M"] if w["M"] != 0 else 10
-    return 10
+def default_max() -> int:
+    """`Message.max_attempts` dataclass default, read off the real class"""
+    from stabilize.queue.messages import RunTask
+
+    return RunTask.__dataclass_fields__["max_attempts"].default
 
 
-def driver_line(scn: dict, w: dict, ops: str) -> str:
-    return (f"retry fixed q={scn['qmax']} shim={int(bool(w.get('shim')))} max={w['M']} ctx={show_ctx({int(k): v for k, v in w['ctx'].items()})} "
-            f"script={';'.join(w['script']) or '-'} dflt={w['dflt']} ops={ops or '-'}")
+def limit_of(w: dict | None = None) -> int:
+    return default_max() or 10
+
+
+def driver_line(scn: dict, w: dict, ops: list[str]) -> str:
+    return (f"retry fixed q={scn['qmax']} dm={default_max()} ctx={show_ctx({int(k): v for k, v in w['ctx'].items()})} "
+            f"script={';'.join(w['script']) or '-'} dflt={w['dflt']} ops={'.'.join(ops) or '-'}")
 
 
 def run_scenario(env: ProcEnv, scn: dict, rng, ctx=None, verbose: bool = False) -> dict:
@@ -146,12 +153,13 @@ def run_scenario(env: ProcEnv, scn: dict, rng, ctx=None, verbose: bool = False) 
         env.store.store(wf)
         Orchestrator(env.queue).start(wf)
         chains.append({"cid": cid, "wf": wf.id, "stage": wf.stages[0].id, "flaky": wf.stages[0].tasks[w["pos"]].id,
-                       "obs": [], "ops": "", "done": "-", "cut": False, "maxset": False, "spec": w, "round_trips": 0})
+                       "obs": [], "ops": [], "done": "-", "cut": False, "stale": [], "spec": w, "round_trips": 0})
     by_wf = {c["wf"]: c for c in chains}
     stuck: set[int] = set()
     choices_in = scn.get("choices")
     choices_out: list[list] = []
     px = scn.get("px", 0.0)
+    pl = scn.get("pl", 0.0)
     step = 0
     violations: list[tuple[str, str]] = []
 
@@ -163,6 +171,11 @@ def run_scenario(env: ProcEnv, scn: dict, rng, ctx=None, verbose: bool = False) 
 
     def is_flaky(row, c) -> bool:
         return row["message_type"] == "RunTask" and payload(row).get("task_id") == c["flaky"]
+
+    def kind_of(row, c) -> str:
+        if row["id"] in c["stale"]:
+            return "stale"
+        return "live" if is_flaky(row, c) else "other"
 
     while step < scn.get("max_steps", 600):
         cands = []
@@ -179,34 +192,52 @@ def run_scenario(env: ProcEnv, scn: dict, rng, ctx=None, verbose: bool = False) 
         else:
             idx = 0 if scn["mode"] == "fifo" else rng.randrange(len(cands))
             op = "h"
-            if is_flaky(*cands[idx]) and px and rng.random() < px:
-                op = "x"
+            if kind_of(*cands[idx]) == "live":
+                u = rng.random()
+                op = "x" if u < px else ("l" if u < px + pl else "h")
         row, c = cands[idx]
-        flaky = is_flaky(row, c)
-        if op == "x" and not flaky:
-            op = "h"
+        kind = kind_of(row, c)
+        op = "r" if kind == "stale" else ("h" if (kind == "other" or op == "r") else op)
         choices_out.append([idx, op])
         step += 1
         rid = row["id"]
         w = c["spec"]
-        if flaky and not c["maxset"]:
-            # the first RunTask of the chain: give it the scenario's per-message limit (column only)
-            env.ro.execute("UPDATE queue_messages SET max_attempts = ? WHERE id = ?", (w["M"], rid))
-            c["maxset"] = True
-            row = env.row(rid)
+        world = WORLD[c["cid"]]
         m = env.poll_row(rid)
+        if kind == "stale":
+            k = c["stale"].index(rid)
+            c["ops"].append(f"r{k}")
+            if m is None:
+                stuck.add(rid)
+                c["obs"].append("stuck")
+                continue
+            n0 = world["n"]
+            try:
+                env.handle_and_ack(m)
+            except Exception as e:
+                env.queue.reschedule(m, timedelta(0))
+                c["obs"].append(f"handler-error:{type(e).__name__}")
+                continue
+            c["stale"].pop(k)
+            if world["n"] != n0:
+                c["obs"].append(f"executions+{world['n'] - n0}")
+                violations.append((f"a RunTask that had already been re-queued / completed was delivered again and the task was "
+                                   f"executed again (execution {world['n']})", SIG_REEXEC))
+            else:
+                c["obs"].append("dedup")
+            continue
         if m is None:
             stuck.add(rid)
-            if flaky:
-                c["ops"] += op
+            if kind == "live":
+                c["ops"].append(op)
                 c["obs"].append("stuck")
             continue
         if op == "x":
             env.queue.reschedule(m, timedelta(0))
-            c["ops"] += "x"
+            c["ops"].append("x")
             c["obs"].append(f"x:{env.row(rid)['attempts']}")
             continue
-        if not flaky:
+        if kind == "other":
             try:
                 env.handle_and_ack(m)
             except Exception as e:  # not expected for these workflows
@@ -214,14 +245,16 @@ def run_scenario(env: ProcEnv, scn: dict, rng, ctx=None, verbose: bool = False) 
                 c["obs"].append(f"handler-error:{type(e).__name__}")
             continue
         # ---- the flaky task's RunTask --------------------------------------------------------
-        world = WORLD[c["cid"]]
         n0, v0 = world["n"], stage_version(c)
-        if w.get("shim"):
-            m.max_attempts = row["max_attempts"]
         a_seen, m_seen = m.attempts, m.max_attempts
-        c["ops"] += "h"
+        c["ops"].append(op)
         try:
-            env.handle_and_ack(m)
+            if op == "l":
+                # the handler runs and commits; the worker dies before the processor's mark and before the ack
+                env.processor._handlers[type(m)].handle(m)
+                c["stale"].append(rid)
+            else:
+                env.handle_and_ack(m)
         except Exception as e:
             env.queue.reschedule(m, timedelta(0))
             c["obs"].append(f"handler-error:{type(e).__name__}")
@@ -246,7 +279,7 @@ def run_scenario(env: ProcEnv, scn: dict, rng, ctx=None, verbose: bool = False) 
             elif r2["message_type"] == "CompleteTask":
                 res = f"done:{p2.get('status')}"
                 c["done"] = p2.get("status")
-        c["obs"].append(f"E{n0 + 1} a={a_seen} m={m_seen} see={show_ctx(saw)} {res} v{dv} c={show_ctx(cur)}")
+        c["obs"].append(f"E{n0 + 1} a={a_seen} m={m_seen} see={show_ctx(saw)} {res} v{dv} c={show_ctx(cur)}" + (" noack" if op == "l" else ""))
         if act[0] == "R" and not res.startswith("poll:"):
             violations.append((f"task answered RUNNING at execution {n0 + 1} but no RunTask was re-queued ({res})", SIG_POLL))
         # cut-off so that an unbounded chain terminates the scenario
@@ -262,10 +295,13 @@ def run_scenario(env: ProcEnv, scn: dict, rng, ctx=None, verbose: bool = False) 
         st = wf.stages[0]
         fin = f"{st.tasks[w['pos']].status.name}/{st.status.name}/{wf.status.name}"
         live = "-"
+        nstale = 0
         for r in env.rows():
-            if r["message_type"] == "RunTask" and payload(r).get("task_id") == c["flaky"]:
+            if r["id"] in c["stale"]:
+                nstale += 1
+            elif r["message_type"] == "RunTask" and payload(r).get("task_id") == c["flaky"]:
                 live = f"{r['attempts']}/{r['max_attempts']}"
-        end = f"end execs={world['n']} done={c['done']} row={live} c={show_ctx(tracked(st.context))} fin={fin}"
+        end = f"end execs={world['n']} done={c['done']} row={live} stale={nstale} c={show_ctx(tracked(st.context))} fin={fin}"
         impl = "|".join(c["obs"] + [end])
         lines.append((i, driver_line(scn, w, c["ops"]), impl, c["round_trips"]))
         if verbose:
@@ -290,7 +326,7 @@ def run_scenario(env: ProcEnv, scn: dict, rng, ctx=None, verbose: bool = False) 
             exp = dict(exp)
             exp.update(parse_kv(a[1:]))
         if best == L and world["acts"] and world["acts"][-1][0] == "F" and run_len == L and not c["cut"] \
-                and scn["qmax"] >= L and "x" not in c["ops"] and fin != "TERMINAL/TERMINAL/TERMINAL":
+                and scn["qmax"] >= L and "x" not in c["ops"] and not c["stale"] and fin != "TERMINAL/TERMINAL/TERMINAL":
             violations.append((f"after {L} transient failures the task/stage/workflow are {fin}, expected TERMINAL", SIG_NOT_TERMINAL))
     # leftovers of cut-off / stuck chains must not leak into the next scenario
     env.ro.execute("DELETE FROM queue_messages")
@@ -311,33 +347,29 @@ def upd_for(i: int, style: int) -> str:
 
 def grid(ctx, rng) -> list[dict]:
     out = []
-    limits = [(10, 0)] + ([(m, 1) for m in (1, 2, 3, 4)] if not ctx.thorough else [(m, 1) for m in (0, 1, 2, 3, 4, 5, 12)])
+    L = limit_of()
     n = 0
-    for M, shim in limits:
-        L = M if (shim and M) else 10
-        for k in range(0, L + 4):
-            for style in ((0, 1, 2) if ctx.thorough else ((k + M) % 3,)):
-                shapes = [(T, p) for T in (1, 2, 3) for p in range(T)] if (ctx.thorough and M in (10, 3)) else [None]
-                for shape in shapes:
-                    T, p = shape if shape else (1 + n % 3, (n // 3) % (1 + n % 3))
-                    for mode in (("fifo", "shuffle") if ctx.thorough else (("fifo", "shuffle")[n % 2],)):
-                        n += 1
-                        w = {"T": T, "pos": p, "ctx": ({"0": 4} if style else {}), "script": [f"F{upd_for(i, style)}" for i in range(k)],
-                             "dflt": "S", "M": M, "shim": shim}
-                        wfs = [w]
-                        if mode == "shuffle":
-                            # a second workflow in the same queue so that the order is a real choice
-                            wfs.append({"T": 1 + (n % 2), "pos": 0, "ctx": {}, "script": [f"F{upd_for(i, 1)}" for i in range(n % 4)],
-                                        "dflt": "S", "M": 10, "shim": 0})
-                        out.append({"qmax": max(10, L), "mode": mode, "wfs": wfs, "px": 0.0, "tag": f"grid-M{M}-k{k}"})
+    for k in range(0, L + 4):
+        for style in (0, 1, 2):
+            shapes = [(T, p) for T in (1, 2, 3) for p in range(T)] if ctx.thorough else [None]
+            for shape in shapes:
+                T, p = shape if shape else (1 + n % 3, (n // 3) % (1 + n % 3))
+                for mode in (("fifo", "shuffle") if ctx.thorough else (("fifo", "shuffle")[n % 2],)):
+                    n += 1
+                    w = {"T": T, "pos": p, "ctx": ({"0": 4} if style else {}), "script": [f"F{upd_for(i, style)}" for i in range(k)],
+                         "dflt": "S"}
+                    wfs = [w]
+                    if mode == "shuffle":
+                        # a second workflow in the same queue so that the order is a real choice
+                        wfs.append({"T": 1 + (n % 2), "pos": 0, "ctx": {}, "script": [f"F{upd_for(i, 1)}" for i in range(n % 4)],
+                                    "dflt": "S"})
+                    out.append({"qmax": L, "mode": mode, "wfs": wfs, "px": 0.0, "pl": (0.15 if n % 4 == 0 else 0.0), "tag": f"grid-k{k}"})
     return out
 
 
 def random_scn(rng) -> dict:
     wfs = []
     for _ in range(rng.choice([1, 1, 2, 3])):
-        shim = rng.random() < 0.4
-        M = rng.choice([0, 1, 2, 3, 4, 5, 12]) if shim else rng.choice([10, 10, 10, 3, 12])
         T = rng.randint(1, 3)
         script = []
         for i in range(rng.randint(0, 14)):
@@ -348,9 +380,9 @@ def random_scn(rng) -> dict:
                 break
         dflt = rng.choice(["F", "F1:1", "S", "S2:2", "P"])
         wfs.append({"T": T, "pos": rng.randrange(T), "ctx": {str(k): rng.randint(-5, 5) for k in rng.sample(range(6), rng.randint(0, 3))},
-                    "script": script, "dflt": dflt, "M": M, "shim": int(shim)})
+                    "script": script, "dflt": dflt})
     return {"qmax": rng.choice([10, 10, 10, 12, 3, 5]), "mode": rng.choice(["fifo", "shuffle"]), "wfs": wfs,
-            "px": rng.choice([0.0, 0.0, 0.15, 0.3]), "tag": "random"}
+            "px": rng.choice([0.0, 0.0, 0.15, 0.3]), "pl": rng.choice([0.0, 0.15, 0.3]), "tag": "random"}
 
 
 # ------------------------------------------------------------------------------------------------
@@ -379,14 +411,11 @@ def _run_batch(ctx, scns: list[dict], suite: str, rng) -> None:
             canon["choices"] = res["choices"]
             ctx.count(canon, nontrivial=any(rt > 0 for *_, rt in res["lines"]))
             ctx.tag(scn.get("tag", "?").split("-k")[0], f"mode-{scn['mode']}")
-            for w in scn["wfs"]:
-                if w.get("shim"):
-                    ctx.tag("max-shim")
             for i, dl, il, _rt in res["lines"]:
                 inputs.append({"scenario": canon, "wf": i})
                 lines.append(dl)
                 impl.append(il)
-                for tok in ("retry:", "poll:", "done:TERMINAL", "done:SUCCEEDED", "stuck", "x:"):
+                for tok in ("retry:", "poll:", "done:TERMINAL", "done:SUCCEEDED", "stuck", "x:", "noack", "dedup"):
                     if tok in il:
                         ctx.tag("obs-" + tok.strip(":"))
             if res["lines"]:
@@ -398,14 +427,6 @@ def _run_batch(ctx, scns: list[dict], suite: str, rng) -> None:
             e.close()
         rmtree(workdir)
     ctx.correspond(suite, inputs, lines, impl)
-    # side evidence: how many chains behave like the model of the code AS FOUND (`current`, finding F1)
-    cur = ctx.lean([l.replace("retry fixed ", "retry current ", 1) for l in lines])
-    if cur is not None:
-        agree = ctx.extra.setdefault("chains_agreeing_with_variant", {"fixed": 0, "current": 0, "total": 0})
-        fixed = ctx.lean(lines) or []
-        agree["total"] += len(lines)
-        agree["current"] += sum(1 for a, b in zip(impl, cur) if a == b)
-        agree["fixed"] += sum(1 for a, b in zip(impl, fixed) if a == b)
 
 
 def _corpus() -> list[dict]:
@@ -438,10 +459,9 @@ def search(ctx) -> None:
     logging.disable(logging.CRITICAL)
     rng = ctx.rng
     scns = []
-    for M, shim in [(10, 0), (3, 1), (1, 1)]:
-        for style in (0, 1):
-            scns.append({"qmax": 10, "mode": "fifo", "wfs": [{"T": 1, "pos": 0, "ctx": {}, "script": [], "dflt": "F" + upd_for(0, style),
-                                                              "M": M, "shim": shim}], "px": 0.0, "tag": "search"})
+    for style in (0, 1):
+        scns.append({"qmax": limit_of(), "mode": "fifo", "wfs": [{"T": 1, "pos": 0, "ctx": {}, "script": [], "dflt": "F" + upd_for(0, style)}],
+                     "px": 0.0, "tag": "search"})
     scns += [random_scn(rng) for _ in range(ctx.n(300, 1500))]
     _run_batch(ctx, scns, "retry-search", rng)
 
